@@ -37,7 +37,8 @@ GROUPS: dict[str, list[tuple[str, str]]] = {
     "solve_scipy": [("solvers/scipy_solver.py", "solve_scipy")],
     # Constraint.violation / is_satisfied / __post_init__ / evaluate are translated (py2lean_post.gen_constraint ->
     # Generated/ConstraintFns, Props/ConstraintTie); _make_constraint's shape is pinned by Glue.makeConstraint_shape
-    "constraint": [("constraints.py", "Constraint.get_variables"), ("constraints.py", "_make_constraint")],
+    # Constraint.get_variables is pinned as text by py2lean_post.gen_constraint (ConstraintTie.getVariables_text)
+    "constraint": [("constraints.py", "_make_constraint")],
     "vecmat": [("core/vectors.py", "VectorVariable"), ("core/matrices.py", "MatrixVariable")],
     # the scalar Parameter class and _as_parameter_value are translated (py2lean_param.py -> Generated/ParamClass, Props/ParamTie)
     "parameter": [],
